@@ -151,6 +151,11 @@ fn c15_sync(rec: &mut Rec, tier: u8, seed: u64, idx: usize) {
             }
             p
         }
+        // a load decision directly followed by the spurious-return decision of a Notify wait: two decisions of other kinds
+        // sit between two scheduling decisions (the preemption count is carried from one scheduling decision to the next)
+        (false, 0) => sp(vec![vec![AStore(0, 1), AStore(1, 1), NNotify, AStore(0, 2), ALoad(1), Join(1)], vec![ALoad(0), NWait, ALoad(1), AStore(1, 2), ALoad(0)]]),
+        (false, 1) => sp(vec![vec![AStore(0, 1), NNotify, AStore(1, 1), AStore(0, 2), Join(1), Join(2)], vec![ALoad(0), NWait, ALoad(1), ALoad(0)], vec![ALoad(1), AStore(0, 3), ALoad(0)]]),
+        (false, 2) => sp(vec![vec![RStore(0, 1), NNotify, RStore(0, 2), RLoad(1), Join(1)], vec![RLoad(0), NWait, RLoad(0), RStore(1, 1), RLoad(0)]]),
         (false, _) => crate::fam_sync::prog_at(if idx % 8 == 3 { "C07" } else { "C01" }, 0, seed ^ 0x15, 50_000_000 + idx),
     };
     rec.hash = p.hash();
